@@ -246,6 +246,8 @@ def run(ctx):
         C18_server.check(ctx, prog_c)
         import C18_candidate
         C18_candidate.check(ctx, prog_c)
+        import C18_session
+        C18_session.check(ctx, prog_c)
         import C18_ready
         import C18_ready_replay
         C18_ready.check(ctx, prog_c)
@@ -346,6 +348,11 @@ def replay_file(path):
             bad += C18_ready_replay.evaluate(rp['rp']['sessions'], rp['rp']['auth'])[0]
         print('native NodeServer ConnectionReady:', bad)
         return 1 if bad else 0
+    if rp.get('which') == 'session':
+        import C18_session
+        r = C18_session.replay(rp['rp'])
+        print(r['detail'])
+        return 1 if r['replayed'] else 0
     if rp.get('which') == 'candidate':
         import C18_candidate_replay
         r = C18_candidate_replay.replay(rp['rp'])
